@@ -171,18 +171,24 @@ def check(spec):
     if inter is not None and spec["inter"] == "revolute":
         system.reset()
         inter.l(t, q[inter.qDOF])  # settle the branch tracking at the evaluation state
-    cmp("h_q", D(system.h_q(t, q, u)), lambda q_: system.h(t, q_, u), q, hq)
-    cmp("h_u", D(system.h_u(t, q, u)), lambda u_: system.h(t, q, u_), u, hu)
-    cmp("q_dot_q", D(system.q_dot_q(t, q, u)), lambda q_: system.q_dot(t, q_, u), q, hq)
-    cmp("q_dot_u", D(system.q_dot_u(t, q)), lambda u_: system.q_dot(t, q, u_), u, hu)
-    if system.nla_c:
-        cmp("c_q", D(system.c_q(t, q, u, la_c)), lambda q_: system.c(t, q_, u, la_c), q, hq)
-        cmp("c_u", D(system.c_u(t, q, u, la_c)), lambda u_: system.c(t, q, u_, la_c), u, hu)
-        cmp("c_la_c", D(system.c_la_c()), lambda l_: system.c(t, q, u, l_), la_c, 1e-3 * np.ones_like(la_c))
-        cmp("Wla_c_q", D(system.Wla_c_q(t, q, la_c)), lambda q_: D(system.W_c(t, q_)) @ la_c, q, hq)
-    if system.nla_tau:
-        cmp("Wla_tau_q", D(system.Wla_tau_q(t, q, u)), lambda q_: D(system.W_tau(t, q_)) @ system.la_tau(t, q_, u), q, hq)
-        cmp("Wla_tau_u", D(system.Wla_tau_u(t, q, u)), lambda u_: D(system.W_tau(t, q)) @ system.la_tau(t, q, u_), u, hu)
+    # every Jacobian at the case's velocity and then, on the same objects at the same (t, q), at a second velocity (a
+    # velocity-dependent quantity memoised per configuration would be served stale)
+    u_first = u
+    for u in ([u_first, -0.6 * u_first[::-1] + 0.3] if u_first.size else [u_first]):
+        cmp("h_q", D(system.h_q(t, q, u)), lambda q_: system.h(t, q_, u), q, hq)
+        cmp("h_u", D(system.h_u(t, q, u)), lambda u_: system.h(t, q, u_), u, hu)
+        cmp("q_dot_q", D(system.q_dot_q(t, q, u)), lambda q_: system.q_dot(t, q_, u), q, hq)
+        cmp("q_dot_u", D(system.q_dot_u(t, q)), lambda u_: system.q_dot(t, q, u_), u, hu)
+        if system.nla_c:
+            cmp("c_q", D(system.c_q(t, q, u, la_c)), lambda q_: system.c(t, q_, u, la_c), q, hq)
+            cmp("c_u", D(system.c_u(t, q, u, la_c)), lambda u_: system.c(t, q, u_, la_c), u, hu)
+            cmp("c_la_c", D(system.c_la_c()), lambda l_: system.c(t, q, u, l_), la_c, 1e-3 * np.ones_like(la_c))
+            cmp("Wla_c_q", D(system.Wla_c_q(t, q, la_c)), lambda q_: D(system.W_c(t, q_)) @ la_c, q, hq)
+        if system.nla_tau:
+            cmp("Wla_tau_q", D(system.Wla_tau_q(t, q, u)), lambda q_: D(system.W_tau(t, q_)) @ system.la_tau(t, q_, u), q, hq)
+            cmp("Wla_tau_u", D(system.Wla_tau_u(t, q, u)), lambda u_: D(system.W_tau(t, q)) @ system.la_tau(t, q, u_), u, hu)
+
+    u = u_first
 
     # classification
     both = all(b["kind"] in ("rigid", "point") for b in spec["bodies"]) and len(spec["bodies"]) == 2
